@@ -402,6 +402,9 @@ func (ss *Sorts) mkMap(k, v *Sort, t types.Type) *Sort {
 	s := &Sort{Name: name, Kind: KMap, Key: k, Elem: v, GoType: t, Mk: "mk_" + name}
 	ss.decls = append(ss.decls, fmt.Sprintf("(declare-datatypes ((%s 0)) (((%s (dom_%s (Array %s Bool)) (val_%s (Array %s %s)) (mnil_%s Bool)))))", name, s.Mk, name, k.Name, name, k.Name, v.Name, name))
 	ss.decls = append(ss.decls, fmt.Sprintf("(declare-fun maplen_%s (%s) Int)", name, name))
+	ss.decls = append(ss.decls, fmt.Sprintf("(assert (forall ((m %s)) (! (>= (maplen_%s m) 0) :pattern ((maplen_%s m)))))", name, name, name))
+	ss.decls = append(ss.decls, fmt.Sprintf("(assert (forall ((m %s) (k %s)) (! (=> (select (dom_%s m) k) (> (maplen_%s m) 0)) :pattern ((select (dom_%s m) k) (maplen_%s m)))))", name, k.Name, name, name, name, name))
+	ss.decls = append(ss.decls, fmt.Sprintf("(assert (forall ((m %s)) (! (=> (= (dom_%s m) ((as const (Array %s Bool)) false)) (= (maplen_%s m) 0)) :pattern ((maplen_%s m)))))", name, name, k.Name, name, name))
 	ss.byName[name] = s
 	return s
 }
